@@ -679,8 +679,9 @@ func (c *genctx) frameOffence(sc *scenario) {
 		}
 	case 10: // frame over the advertised size
 		ev = event{kind: 'B', raw: rawFrame(0, 0, someSid, make([]byte, 16385)), class: "other"}
-	case 11: // padding that does not fit
-		ev = event{kind: 'B', raw: rawFrame(0, 8, someSid, []byte{5, 1, 2}), class: "other"}
+	case 11: // padding that does not fit: longer than the payload, or exactly as long as it
+		pl := [][]byte{{5, 1, 2}, {3, 1, 2}, {1}, {2, 0}, {255}}[r.intn(5)]
+		ev = event{kind: 'B', raw: rawFrame(byte(r.pick(0, 1)), byte(r.pick(8, 9, 0x0d)), someSid, pl), class: "other"}
 	case 12: // SETTINGS on a stream, GOAWAY on a stream
 		f := newFrame(byte(r.pick('S', 'A')), 0, someSid)
 		if f.kind == 'A' {
